@@ -98,11 +98,16 @@ def mos_format(mos, wd, n, text):
 
 def main(tier):
     rep = V.Report("C17", tier)
-    L.add_local_findings(rep, os.path.dirname(os.path.abspath(__file__)))
+    open_devs = L.add_local_findings(rep, os.path.dirname(os.path.abspath(__file__)))
     mos = V.build_mos()
     mc = os.path.join(SPEC, "MC_Edits.tla")
-    for cfg, what in (("MC_Edits_ideal.cfg", "ideal tracker"), ("MC_Edits_impl.cfg", "byte tracker, weakened by the witness")):
-        r = V.tlc(mc, cfg=os.path.join(SPEC, cfg), workers=4, timeout=1200, tag="C17-" + cfg[:-4])
+    # reading of the current tree: byte columns only while EditColumnsInBytes is open (spec/Edits/MC_Edits_impl.cfg pins "bytes")
+    cur = os.path.join(V.workdir("C17-cfg"), "MC_Edits_current.cfg")
+    mode = "bytes" if "EditColumnsInBytes" in open_devs else "u16"
+    open(cur, "w").write(open(os.path.join(SPEC, "MC_Edits_impl.cfg")).read().replace('Mode = "bytes"', 'Mode = "%s"' % mode))
+    for cfg, what in ((os.path.join(SPEC, "MC_Edits_ideal.cfg"), "ideal tracker"), (cur, "tracker of the current tree (%s columns), weakened by the witness" % mode)):
+        r = V.tlc(mc, cfg=cfg, workers=4, timeout=1200, tag="C17-" + os.path.basename(cfg)[:-4])
+        cfg = os.path.basename(cfg)
         rep.add_tlc(r)
         if r.invariant_violated:
             rep.violations.append({"why": "design level: %s violated" % cfg, "replay": {"tlc_output": V.tail(r.out, 60)}, "id": cfg})
@@ -113,6 +118,7 @@ def main(tier):
     rv = V.tlc(mc, cfg=os.path.join(SPEC, "MC_Edits_vac.cfg"), workers=2, timeout=600, tag="C17-vac")
     if not rv.invariant_violated:
         raise V.ToolError("vacuity: the byte tracker never breaks the property in the model")
+    rep.notes.append("pinned reading (byte columns) refuted by TLC against the un-weakened property (MC_Edits_vac.cfg)")
     rnd = V.rng("C17")
     wd = V.fresh_dir("C17")
     nbuf = 250 if tier == "quick" else 2500
